@@ -5,28 +5,52 @@ namespace Logos
 theorem getD_lt {α} (l : List α) (j : Nat) (d : α) (h : j < l.length) : l.getD j d = l[j] := by
   simp [List.getD_eq_getElem?_getD, h]
 
+/-- both sources consist of bytes -/
+def ApiEnv.bytesOK (env : ApiEnv) : Prop := (∀ b ∈ env.src, b < 256) ∧ ∀ b ∈ env.src2, b < 256
+
+theorem ApiEnv.srcOf_bytes (env : ApiEnv) (hb : env.bytesOK) (st : LexSt) : ∀ b ∈ env.srcOf st, b < 256 := by
+  unfold ApiEnv.srcOf; split
+  · exact hb.1
+  · exact hb.2
+
+theorem lexerNext_srcId (env : ApiEnv) (st : LexSt) : (lexerNext env st).1.srcId = st.srcId := by
+  unfold lexerNext
+  simp only
+  cases nextLoop (walkAttempt (env.graph st.ty) st.pfx (env.srcOf st)) (env.cb st.ty) env.utf8 (env.srcOf st) ((env.srcOf st).length + 2) st.stop <;> rfl
+
+theorem lexerBump_srcId (env : ApiEnv) (st : LexSt) (n : Nat) : (lexerBump env st n).1.srcId = st.srcId := by
+  unfold lexerBump
+  cases bumpFixed (env.isB st) ⟨st.start, st.stop⟩ n <;> rfl
+
+theorem srcOf_congr (env : ApiEnv) {a b : LexSt} (h : a.srcId = b.srcId) : env.srcOf a = env.srcOf b := by
+  unfold ApiEnv.srcOf; rw [h]
+
 theorem lexerNext_inRange (env : ApiEnv) (hA : WF env.gA) (hB : WF env.gB)
-    (hcbA : NoBump env.cbA) (hcbB : NoBump env.cbB) (hb : ∀ b ∈ env.src, b < 256)
-    (st : LexSt) (hp : st.pfx = false) (h : st.inRange env.src.length) :
-    (lexerNext env st).1.inRange env.src.length := by
+    (hcbA : NoBump env.cbA) (hcbB : NoBump env.cbB) (hb : env.bytesOK)
+    (st : LexSt) (hp : st.pfx = false) (h : st.ok env) :
+    (lexerNext env st).1.ok env := by
   have hG : WF (env.graph st.ty) := by unfold ApiEnv.graph; split <;> assumption
   have hC : NoBump (env.cb st.ty) := by unfold ApiEnv.cb; split <;> assumption
-  have := nextLoop_ok hG (env.cb st.ty) hC env.utf8 env.src hb (env.src.length + 2) st.stop h.2 (by omega)
+  have := nextLoop_ok hG (env.cb st.ty) hC env.utf8 (env.srcOf st) (env.srcOf_bytes hb st) ((env.srcOf st).length + 2) st.stop h.2 (by omega)
+  unfold LexSt.ok
+  rw [srcOf_congr env (lexerNext_srcId env st)]
   unfold lexerNext
   rw [hp]
   rcases this with h1 | ⟨it, h1, h2, h3, h4⟩
   · rw [h1]; simp [LexSt.inRange]
   · rw [h1]; simp only [LexSt.inRange]; omega
 
-theorem lexerBump_inRange (env : ApiEnv) (st : LexSt) (n : Nat) (h : st.inRange env.src.length) :
-    (lexerBump env st n).1.inRange env.src.length := by
-  have hbf : BoundaryFn env.src.length env.isB := by
+theorem lexerBump_inRange (env : ApiEnv) (st : LexSt) (n : Nat) (h : st.ok env) :
+    (lexerBump env st n).1.ok env := by
+  have hbf : BoundaryFn (env.srcOf st).length (env.isB st) := by
     unfold ApiEnv.isB
     split
-    · exact boundaryFn_str env.src
-    · exact boundaryFn_bytes env.src.length
+    · exact boundaryFn_str (env.srcOf st)
+    · exact boundaryFn_bytes (env.srcOf st).length
+  unfold LexSt.ok
+  rw [srcOf_congr env (lexerBump_srcId env st n)]
   unfold lexerBump bumpFixed
-  by_cases hc : st.stop + n < two64 ∧ env.isB (st.stop + n) = true
+  by_cases hc : st.stop + n < two64 ∧ env.isB st (st.stop + n) = true
   · have := hbf _ hc.2
     have := h.1
     simp only [hc, and_self, if_true, LexSt.inRange]
@@ -34,22 +58,22 @@ theorem lexerBump_inRange (env : ApiEnv) (st : LexSt) (n : Nat) (h : st.inRange 
   · simp only [hc, if_false]
     exact h
 
-/-- the lexer is an ordinary one and its span is valid -/
-def LexSt.okPlain (len : Nat) (st : LexSt) : Prop := st.pfx = false ∧ st.inRange len
+/-- the lexer is an ordinary one and its span is valid in its own source -/
+def LexSt.okPlain (env : ApiEnv) (st : LexSt) : Prop := st.pfx = false ∧ st.ok env
 
 theorem lexerNext_pfx (env : ApiEnv) (st : LexSt) : (lexerNext env st).1.pfx = st.pfx := by
   unfold lexerNext
   simp only
-  cases nextLoop (walkAttempt (env.graph st.ty) st.pfx env.src) (env.cb st.ty) env.utf8 env.src (env.src.length + 2) st.stop <;> rfl
+  cases nextLoop (walkAttempt (env.graph st.ty) st.pfx (env.srcOf st)) (env.cb st.ty) env.utf8 (env.srcOf st) ((env.srcOf st).length + 2) st.stop <;> rfl
 
 theorem lexerBump_pfx (env : ApiEnv) (st : LexSt) (n : Nat) : (lexerBump env st n).1.pfx = st.pfx := by
   unfold lexerBump
-  cases bumpFixed env.isB ⟨st.start, st.stop⟩ n <;> rfl
+  cases bumpFixed (env.isB st) ⟨st.start, st.stop⟩ n <;> rfl
 
 theorem apiStep_inRange (env : ApiEnv) (hA : WF env.gA) (hB : WF env.gB)
-    (hcbA : NoBump env.cbA) (hcbB : NoBump env.cbB) (hb : ∀ b ∈ env.src, b < 256)
-    (op : ApiOp) (hop : op ≠ .fresh true) (pool : List LexSt) (h : ∀ st ∈ pool, st.okPlain env.src.length) :
-    ∀ st ∈ (apiStep env pool op).1, st.okPlain env.src.length := by
+    (hcbA : NoBump env.cbA) (hcbB : NoBump env.cbB) (hb : env.bytesOK)
+    (op : ApiOp) (hop : ∀ k, op ≠ .fresh true k) (pool : List LexSt) (h : ∀ st ∈ pool, st.okPlain env) :
+    ∀ st ∈ (apiStep env pool op).1, st.okPlain env := by
   unfold apiStep
   split
   · exact h
@@ -58,17 +82,17 @@ theorem apiStep_inRange (env : ApiEnv) (hA : WF env.gA) (hB : WF env.gB)
       cases pool with
       | nil => simp at hne
       | cons a l => simp
-    have hpick : ∀ i, (pool.getD (i % pool.length) ⟨0, 0, 0, 0, false⟩).okPlain env.src.length := by
+    have hpick : ∀ i, (pool.getD (i % pool.length) ⟨0, 0, 0, 0, false, 0⟩).okPlain env := by
       intro i
       have hj : i % pool.length < pool.length := Nat.mod_lt _ hlen
       rw [getD_lt _ _ _ hj]
       exact h _ (List.getElem_mem hj)
-    have hset : ∀ j x, x.okPlain env.src.length → ∀ st ∈ setAt pool j x, st.okPlain env.src.length := by
+    have hset : ∀ j x, x.okPlain env → ∀ st ∈ setAt pool j x, st.okPlain env := by
       intro j x hx st hst
       rcases List.mem_or_eq_of_mem_set hst with h1 | h1
       · exact h _ h1
       · rw [h1]; exact hx
-    have hnext : ∀ i, ((lexerNext env (pool.getD (i % pool.length) ⟨0, 0, 0, 0, false⟩)).1).okPlain env.src.length :=
+    have hnext : ∀ i, ((lexerNext env (pool.getD (i % pool.length) ⟨0, 0, 0, 0, false, 0⟩)).1).okPlain env :=
       fun i => ⟨(lexerNext_pfx env _).trans (hpick i).1,
         lexerNext_inRange env hA hB hcbA hcbB hb _ (hpick i).1 (hpick i).2⟩
     cases op with
@@ -82,31 +106,32 @@ theorem apiStep_inRange (env : ApiEnv) (hA : WF env.gA) (hB : WF env.gB)
       · exact h _ h1
       · rw [h1]; exact hpick i
     | morph i => exact hset _ _ ⟨(hpick i).1, (hpick i).2⟩
-    | fresh p =>
+    | fresh p k =>
       intro st hst
       simp only [List.mem_append, List.mem_singleton] at hst
       rcases hst with h1 | h1
       · exact h _ h1
       · rw [h1]
         cases p with
-        | true => exact absurd rfl hop
-        | false => exact ⟨rfl, by simp [LexSt.inRange]⟩
+        | true => exact absurd rfl (hop k)
+        | false => exact ⟨rfl, by simp [LexSt.ok, LexSt.inRange]⟩
     | cloneFrom i j =>
       simp only
       split
       · exact hset _ _ (hpick j)
       · exact h
 
-/-- **C14, spans stay valid in every call order.** For two well-formed graphs over one source and
-any finite sequence of `next`, `bump` (any `n`: out-of-range bumps panic and leave the lexer
-unchanged), `clone`, `clone_from`, `morph` and `spanned().next()` calls on a pool of ordinary (non-partial)
-lexers, every lexer of the pool keeps `start ≤ end ≤ len` (for partial lexers: `api_in_range_any`). -/
+/-- **C14, spans stay valid in every call order.** For two well-formed graphs and two sources, and any finite
+sequence of `next`, `bump` (any `n`: out-of-range bumps panic and leave the lexer unchanged), `clone`,
+`clone_from`, `morph`, `spanned().next()` calls and new lexers over either source, on a pool of ordinary
+(non-partial) lexers, every lexer of the pool keeps `start ≤ end ≤ len` **of its own source** (for partial
+lexers: `api_in_range_any`). -/
 theorem api_in_range (env : ApiEnv) (hA : WF env.gA) (hB : WF env.gB)
-    (hcbA : NoBump env.cbA) (hcbB : NoBump env.cbB) (hb : ∀ b ∈ env.src, b < 256)
-    (ops : List ApiOp) (hops : ∀ op ∈ ops, op ≠ .fresh true) (pool : List LexSt)
-    (h : ∀ st ∈ pool, st.okPlain env.src.length) :
-    ∀ st ∈ apiRun env pool ops, st.inRange env.src.length := by
-  suffices hs : ∀ st ∈ apiRun env pool ops, st.okPlain env.src.length from fun st hst => (hs st hst).2
+    (hcbA : NoBump env.cbA) (hcbB : NoBump env.cbB) (hb : env.bytesOK)
+    (ops : List ApiOp) (hops : ∀ op ∈ ops, ∀ k, op ≠ .fresh true k) (pool : List LexSt)
+    (h : ∀ st ∈ pool, st.okPlain env) :
+    ∀ st ∈ apiRun env pool ops, st.ok env := by
+  suffices hs : ∀ st ∈ apiRun env pool ops, st.okPlain env from fun st hst => (hs st hst).2
   induction ops generalizing pool with
   | nil => exact h
   | cons op ops ih =>
@@ -114,12 +139,12 @@ theorem api_in_range (env : ApiEnv) (hA : WF env.gA) (hB : WF env.gB)
     exact ih (fun o ho => hops o (List.mem_cons_of_mem _ ho)) _
       (apiStep_inRange env hA hB hcbA hcbB hb op (hops op (List.mem_cons_self)) pool h)
 
-/-- **`clone_from` makes the target an exact copy of the source lexer, mode included**: afterwards the two
-lexers are equal, so every later call gives the same result on both -/
+/-- **`clone_from` makes the target an exact copy of the source lexer, mode and source included**: afterwards
+the two lexers are equal, so every later call gives the same result on both -/
 theorem cloneFrom_copies (env : ApiEnv) (pool : List LexSt) (i j : Nat) (hne : pool ≠ [])
-    (hty : (pool.getD (i % pool.length) ⟨0, 0, 0, 0, false⟩).ty = (pool.getD (j % pool.length) ⟨0, 0, 0, 0, false⟩).ty) :
-    ((apiStep env pool (.cloneFrom i j)).1).getD (i % pool.length) ⟨0, 0, 0, 0, false⟩ =
-      pool.getD (j % pool.length) ⟨0, 0, 0, 0, false⟩ := by
+    (hty : (pool.getD (i % pool.length) ⟨0, 0, 0, 0, false, 0⟩).ty = (pool.getD (j % pool.length) ⟨0, 0, 0, 0, false, 0⟩).ty) :
+    ((apiStep env pool (.cloneFrom i j)).1).getD (i % pool.length) ⟨0, 0, 0, 0, false, 0⟩ =
+      pool.getD (j % pool.length) ⟨0, 0, 0, 0, false, 0⟩ := by
   have hlen : 0 < pool.length := List.length_pos_iff.mpr hne
   have hj : i % pool.length < pool.length := Nat.mod_lt _ hlen
   unfold apiStep
@@ -127,31 +152,31 @@ theorem cloneFrom_copies (env : ApiEnv) (pool : List LexSt) (i j : Nat) (hne : p
   rw [getD_lt _ _ _ (by simpa using hj)]
   simp
 
-/-- `clone` copies the mode too -/
+/-- `clone` copies the mode and the source too -/
 theorem clone_copies_mode (env : ApiEnv) (pool : List LexSt) (i : Nat) (hne : pool ≠ []) :
-    (((apiStep env pool (.clone i)).1).getD pool.length ⟨0, 0, 0, 0, false⟩) =
-      pool.getD (i % pool.length) ⟨0, 0, 0, 0, false⟩ := by
+    (((apiStep env pool (.clone i)).1).getD pool.length ⟨0, 0, 0, 0, false, 0⟩) =
+      pool.getD (i % pool.length) ⟨0, 0, 0, 0, false, 0⟩ := by
   unfold apiStep
   simp [hne, List.getD_eq_getElem?_getD]
 
 /-- `clone` leaves every existing lexer untouched and appends an identical one -/
 theorem clone_independent (env : ApiEnv) (pool : List LexSt) (i : Nat) (hne : pool ≠ []) :
-    (apiStep env pool (.clone i)).1 = pool ++ [pool.getD (i % pool.length) ⟨0, 0, 0, 0, false⟩] := by
+    (apiStep env pool (.clone i)).1 = pool ++ [pool.getD (i % pool.length) ⟨0, 0, 0, 0, false, 0⟩] := by
   unfold apiStep
   simp [hne]
 
 /-- `morph` preserves position and extras -/
 theorem morph_preserves (env : ApiEnv) (pool : List LexSt) (i : Nat) (hne : pool ≠ []) :
-    let st := pool.getD (i % pool.length) ⟨0, 0, 0, 0, false⟩
-    let st' := ((apiStep env pool (.morph i)).1).getD (i % pool.length) ⟨0, 0, 0, 0, false⟩
-    st'.start = st.start ∧ st'.stop = st.stop ∧ st'.extras = st.extras ∧ st'.pfx = st.pfx ∧ st'.ty ≠ st.ty := by
+    let st := pool.getD (i % pool.length) ⟨0, 0, 0, 0, false, 0⟩
+    let st' := ((apiStep env pool (.morph i)).1).getD (i % pool.length) ⟨0, 0, 0, 0, false, 0⟩
+    st'.start = st.start ∧ st'.stop = st.stop ∧ st'.extras = st.extras ∧ st'.pfx = st.pfx ∧ st'.srcId = st.srcId ∧ st'.ty ≠ st.ty := by
   have hlen : 0 < pool.length := List.length_pos_iff.mpr hne
   have hj : i % pool.length < pool.length := Nat.mod_lt _ hlen
   unfold apiStep
   simp only [List.isEmpty_iff, hne, if_false, setAt]
   rw [getD_lt _ _ _ (by simpa using hj)]
   simp only [List.getElem_set_self]
-  refine ⟨trivial, trivial, trivial, trivial, ?_⟩
+  refine ⟨trivial, trivial, trivial, trivial, trivial, ?_⟩
   split <;> omega
 
 /-- morphing to the other token type and back gives the original pool -/
@@ -178,7 +203,7 @@ theorem morph_twice (env : ApiEnv) (pool : List LexSt) (i : Nat) (hne : pool ≠
       = pool[i % pool.length] := by
     generalize pool[i % pool.length] = s at ht ⊢
     cases s with
-    | mk ty a b c d =>
+    | mk ty a b c d e =>
       simp only at ht ⊢
       congr
       split <;> split <;> omega
